@@ -18,6 +18,13 @@ for f in sorted(glob.glob('/verif/seeded/*/meta.json')):
             kind += ' + broken proof obligation'
         if any(x.startswith('DISAGREEMENT') for x in caught):
             kind += ' + correspondence'
+    rc = m.get('recheck')
+    if rc and c.get('check_exit') != 1:
+        # the first measurement (above) missed the change or gave no verdict; `recheck` is the CURRENT check's result
+        now = ('failing input `' + rc['key'] + '`') if rc.get('exit') == 1 and rc.get('key') not in (None, 'none') else \
+              ('tie broken, no failing input' if rc.get('exit') == 1 else 'missed')
+        first = 'missed' if c.get('check_exit') == 0 else f"no verdict (exit {c.get('check_exit')})"
+        kind = f"at first: {first}; after strengthening: {now}"
     title = (m.get('title') or m.get('breaks') or '')[:110].replace('|', '/').replace('\n', ' ')
     needs = (m.get('needs_to_manifest') or '')[:170].replace('|', '/').replace('\n', ' ')
     rows.append(f"| {name} | {title} | {needs} | {kind} |")
